@@ -173,7 +173,7 @@ static double peRateFD(const Rig& g, const Force& f, const State& s, double h = 
     for (int k = 0; k < 2; ++k) {
         State t = s;
         t.updQ() = s.getQ() + (k ? h : -h) * qdot;
-        g.sys.realize(t, Stage::Velocity);
+        g.sys.realize(t, Stage::Dynamics);      // contact elements need the contact set (Dynamics stage)
         Contribution c = contrib(g, f, t);       // some elements fill their PE cache in calcForce
         pe[k] = c.pe;
     }
@@ -248,7 +248,7 @@ static void outSpatial(vh::Line& L, const SpatialVec& F) { L.v(F[0], 3).v(F[1], 
 static void elemTwoPoint(Src& c, const std::string& which, bool degenerate) {
     int nb = c.ival(gNB ? gNB : 2 + c.rng->below(3));
     int b1 = c.integer(0, nb), b2 = c.integer(0, nb);
-    if (!c.replay && !degenerate && b1 == b2 && c.rng->below(4)) { /* same body twice is allowed, but keep it rare */
+    if (!c.replay && !degenerate && b1 == b2 && c.rng->below(2)) { /* same body twice is allowed, but keep it rare */
         c.rec.str(""); c.rec << ' ' << nb; b1 = c.rng->below(nb + 1); b2 = (b1 + 1 + c.rng->below(nb)) % (nb + 1);
         c.rec << ' ' << b1 << ' ' << b2; }
     double a = c.real(0.1, 10), x0 = 0;
@@ -655,9 +655,9 @@ static void elemHC(Src& c, int scenario) {
     // ---- scene recipe (drawn or parsed)
     std::ostringstream scene;
     if (c.replay) c.next();                       // nscene token
-    sc.nb = c.ival(c.replay ? 0 : (scenario == 1 ? 2 + c.rng->below(3) : 1 + c.rng->below(4)));
+    sc.nb = c.ival(c.replay ? 0 : (scenario == 3 ? 1 : scenario == 1 ? 2 + c.rng->below(3) : 1 + c.rng->below(4)));
     sc.vt = c.val(c.replay ? 0 : (c.rng->coin() ? 0.01 : c.rng->range(0.005, 0.5)));
-    sc.hasHalf = c.ival(c.replay ? 0 : (scenario == 1 ? 1 : c.rng->below(4) != 0));
+    sc.hasHalf = c.ival(c.replay ? 0 : ((scenario == 1 || scenario == 3) ? 1 : c.rng->below(4) != 0));
     if (sc.hasHalf) {
         Rotation R; Vec3 p;
         if (c.replay) { sc.Xhalf = getPose(c); } else { sc.Xhalf = Transform(randRot(*c.rng), randVec(*c.rng, 1)); putPose(c.rec, sc.Xhalf); }
@@ -1105,8 +1105,8 @@ static bool runContactMode(const std::string& mode, long i, Src& c) {
     if (mode == "c37deg") { elemSmooth(c, 1 + (int)(i % 2)); return true; }
     if (mode == "c13contact" || mode == "c12contact") {
         std::string keep = MODE; MODE = (mode == "c13contact") ? "c13" : "c12";
-        switch (i % 4) { case 0: elemHC(c, 0); break; case 1: if (MODE == "c13") elemSmooth(c, 0); else elemHC(c, 0); break;
-                         case 2: if (MODE == "c13") elemExp(c); else elemHC(c, 0); break; default: if (MODE == "c13") elemHertz(c, 0); else elemHC(c, 0); break; }
+        switch (i % 4) { case 0: elemHC(c, 3); break; case 1: if (MODE == "c13") elemSmooth(c, 0); else elemEF(c); break;
+                         case 2: if (MODE == "c13") elemExp(c); else elemHC(c, 3); break; default: if (MODE == "c13") elemHertz(c, 0); else elemEF(c); break; }
         MODE = keep; return true;
     }
     return false;
@@ -1278,7 +1278,9 @@ int main(int argc, char** argv) {
         static const char* c38elems[] = {"tpSpring", "tpDamper", "tpConst", "constForce", "constTorque", "mobSpring", "mobDamper",
                                          "mobConst", "mobDiscrete", "mobStop", "globalDamper", "uniformGravity", "gravity", "bushing"};
         static const char* c13elems[] = {"tpSpring", "tpDamper", "tpConst", "bushing"};
-        for (long i = 0; i < a.n; ++i) {
+        long N = a.n;
+        if (MODE == "c38deg" || MODE == "c37deg") N = std::max(30L, a.n / 6);
+        for (long i = 0; i < N; ++i) {
             Src c; c.rng = &rng;
             if (MODE == "" || MODE == "c38" || MODE == "c12") runOne(c38elems[i % 14], c);
             else if (MODE == "c38deg") runOne(c13elems[i % 3], c, true);
